@@ -13,6 +13,7 @@
 package lexer
 
 import (
+	"fmt"
 	"strings"
 
 	"github.com/paulsonkoly/calc/types/token"
@@ -47,6 +48,12 @@ func (l *Lexer) Next() bool {
 		if c, s, err = l.nextRune(); err != nil {
 			l.Err = err
 			return false
+		}
+
+		if c == EOF && s > 0 {
+			// a NUL byte in the input is not the end of input marker
+			l.Err = fmt.Errorf("Lexer: unexpected char %q", c)
+			return true
 		}
 
 		str := st(c)
